@@ -72,8 +72,15 @@ pub fn run(sc: &Value) -> Vec<Value> {
                                 }
                                 Ok(Ok(mut f)) => {
                                     let nm = hid(f.name().as_bytes());
+                                    // everything the entry reports belongs to the outcome: a fault-free-looking run must show the
+                                    // same metadata (extra data, comment, sizes, offsets, time, method) as the fault-free run
+                                    let lm = f.last_modified();
+                                    let meta = json!({"rawname": hid(f.name_raw()), "comment": hid(f.comment().as_bytes()), "usize": f.size(), "csize": f.compressed_size(),
+                                        "crc32": f.crc32(), "method": crate::wexec::code_of(f.compression()), "dt": [lm.datepart(), lm.timepart()],
+                                        "extra": hid(f.extra_data()), "hdr": f.header_start(), "dstart": f.data_start(), "chs": f.central_header_start(),
+                                        "made": [f.version_made_by().0, f.version_made_by().1], "dir": f.is_dir()});
                                     match read_all(&mut f, bufsize) {
-                                        Ok((n, c)) => outcome.push(json!({"name": nm, "len": n, "crc": hex32(c), "mode": f.unix_mode()})),
+                                        Ok((n, c)) => outcome.push(json!({"name": nm, "len": n, "crc": hex32(c), "mode": f.unix_mode(), "meta": meta})),
                                         Err(e) => {
                                             anyerr = true;
                                             // a caller may well read again after an error: that must not panic either
@@ -108,7 +115,9 @@ pub fn run(sc: &Value) -> Vec<Value> {
                         }
                         Ok(None) => break,
                         Ok(Some(mut f)) => {
-                            let nm = hid(f.name().as_bytes());
+                            let lm = f.last_modified();
+                            let nm = format!("{}|{}|{}|{}|{}|{}|{}|{}", hid(f.name().as_bytes()), hid(f.name_raw()), f.size(), f.compressed_size(), f.crc32(),
+                                             crate::wexec::code_of(f.compression()), lm.datepart(), lm.timepart());
                             // read only half of every second entry: the drain on release does I/O too
                             let half = outcome.len() % 2 == 1;
                             if half {
